@@ -290,7 +290,7 @@ func decorateForHelp(r *rand.Rand, t *Tree) {
 				}
 			}
 			o.Init = nil
-			if chance(r, 0.08) && o.Kind == "map" && o.VType == "string" {
+			if chance(r, 0.5) && o.Kind == "map" && o.VType == "string" {
 				if o.KType == "" {
 					o.Init = txts("kb:v2", "ka:v1", "kc:v3", "kd:v4")
 				} else {
